@@ -31,6 +31,31 @@ func globalDeadline() time.Time {
 	return time.Now().Add(24 * time.Hour)
 }
 
+// singleCase reports that the binary runs one case in process (-case or
+// -replay): core re-runs the case of a new violation three times that way, so
+// the sub-search is given a short time cap there (shallow violations, i.e.
+// nearly all shrunk histories, are reached within seconds).
+func singleCase() bool {
+	for _, n := range []string{"case", "replay"} {
+		if f := flag.Lookup(n); f != nil && f.Value.String() != "" {
+			return true
+		}
+	}
+	return false
+}
+
+// caseCapFor returns the wall cap of one sub-search.
+func caseCapFor(tier string) time.Duration {
+	s := 50
+	if tier == "thorough" {
+		s = 300
+	}
+	if singleCase() {
+		s = 5
+	}
+	return time.Duration(scaleBudget(s)) * time.Second
+}
+
 func truncDir() string { return filepath.Join(core.Root(), ".bin", "c03.trunc") }
 
 // noteTruncated records that a sub-search stopped before its depth bound.
@@ -115,11 +140,10 @@ func goFamilies(tier string) []*core.Family {
 			byFam[c.family] = append(byFam[c.family], caseRef{c, g})
 		}
 	}
-	caseCap := time.Duration(scaleBudget(50)) * time.Second
+	caseCap := caseCapFor(tier)
 	hang := scaleBudget(200)
 	budgets := map[string]int{"go-empty": 25, "go-deep": 10, "go-int": 14, "go-str": 25, "go-mix": 16, "go-tomb": 12, "go-clo": 6}
 	if tier == "thorough" {
-		caseCap = time.Duration(scaleBudget(300)) * time.Second
 		hang = scaleBudget(900)
 		budgets = map[string]int{"go-empty": 220, "go-deep": 120, "go-int": 130, "go-str": 220, "go-mix": 140, "go-tomb": 110, "go-clo": 40}
 	}
